@@ -1,5 +1,7 @@
 import FindVerif.Theorems.C02
+import FindVerif.Theorems.C04Whole
 #print axioms FV.C02_translation_validity
 #print axioms FV.C02_never_fails
 #print axioms FV.C02_generators_agree
 #print axioms FV.C02_operators
+#print axioms FV.C02_end_to_end
